@@ -72,6 +72,19 @@ def gen(rng, tier, index):
         else:
             reqs[k]["headers"] = [h for h in reqs[k]["headers"] if h[0].lower() != "host"] + [["Host", rng.choice(HOSTILE_HOSTS)]]
         s = {"stream": "".join(G.serialize(r) for r in reqs), "nreq": n, "mutation": "hostile", "mut_index": k, "bytemut": None}
+    elif mode < 0.50:
+        # an Upgrade request (accepted or declined by the handler) followed by a tail: the parser
+        # stops at the upgrade, buffers the tail, and re-parses it if the upgrade is declined
+        n = rng.randint(0, 2)
+        pre = "".join(G.serialize(G.gen_request(rng, i, body_max=40)) for i in range(n))
+        up = ("GET /ws HTTP/1.1\r\nHost: h.test\r\nUpgrade: websocket\r\nConnection: Upgrade\r\n"
+              "Sec-WebSocket-Key: dGhlIHNhbXBsZSBub25jZQ==\r\nSec-WebSocket-Version: 13\r\nX-Tag: up\r\n\r\n")
+        tail = rng.choice([
+            "", "GET /after HTTP/1.1\r\nHost: h.test\r\n\r\n", "garbage line without structure\r\n\r\n",
+            "GET /" + "t" * 9000 + " HTTP/1.1\r\nHost: h.test\r\n\r\n", "\x88\x80\x00\x00\x00\x00", "\x00\xff\xfe",
+            "GET /x HTTP/1.1\r\nHost: h.test\r\nBad Header\r\n\r\n",
+            "POST /p HTTP/1.1\r\nHost: h.test\r\nContent-Length: 3\r\n\r\nabcGET /q HTTP/1.1\r\nHost: h.test\r\n\r\n"])
+        s = {"stream": pre + up + tail, "nreq": n + 1, "mutation": "upgrade_tail", "mut_index": n, "bytemut": None}
     else:
         s = G.gen_stream(rng, max_req=8, bytemut=0.15, truncate=0.1)
     stream = s["stream"]
@@ -304,13 +317,30 @@ def run(scn, ch, log=False):
                         violate("reject_closes", "open_after_parse_error",
                                 "parser error answered but the server left the connection open")
                 break
+        # a declined upgrade: the buffered tail is re-parsed as HTTP; unparsable bytes there must be
+        # answered with a 4xx like any other unparsable input
+        SAFE = ("no_colon", "request_line_shape", "bad_version", "bad_method", "bad_name", "limit_line")
+        if verdict[0] == "DONT_CARE" and verdict[2] == "upgrade_requested" and not upgraded and not killed \
+                and scn["end"] == "keep" and obs.handler_running == 0 and delivered.isascii():
+            tailb = delivered[verdict[1]:]
+            _tm, tv = http1.parse_requests(tailb, limits)
+            upresp = complete_finals[len(msgs) - 1] if 0 < len(msgs) <= len(complete_finals) else None
+            said_close = upresp is None or any(n.lower() == b"connection" and b"close" in v.lower() for n, v in upresp["headers"]) \
+                or upresp["version"] == (1, 0)
+            if tv[0] == "REJECT" and tv[2] in SAFE and b"\r\n\r\n" in tailb and len(complete_finals) >= len(msgs) and not said_close:
+                last = finals[-1]["status"] if finals else None
+                if server_closed and (last is None or not 400 <= last < 500):
+                    violate("reject_closes", f"unparsable_tail_after_declined_upgrade_without_4xx",
+                            f"the handler declined an Upgrade request; the bytes behind it are unparsable ({tv[2]}) but the "
+                            f"connection was closed without a 4xx: statuses={[r['status'] for r in finals]}")
         # forbidden end state: open, a complete request (head) received but neither answered nor
         # being handled.  Judged on what is syntactically a complete header block, whatever the
         # reference thinks of its validity: the server must dispatch it or refuse it.
         if not server_closed and not client_gone and not upgraded and obs.handler_running == 0 and not killed \
                 and not (scn["rd_pause"] and str_.out.held):
             k = len(complete_finals)
-            if k >= obs.handler_started and k <= len(msgs):
+            tunnel = verdict[0] == "DONT_CARE" and verdict[2] in ("connect_tunnel", "upgrade_requested")
+            if k >= obs.handler_started and k <= len(msgs) and not (tunnel and k == len(msgs)):
                 offset = msgs[k - 1]["end"] if k > 0 else 0
                 restb = delivered[offset:].lstrip(b"\r\n")
                 if b"\r\n\r\n" in restb:
